@@ -140,6 +140,19 @@ def stress_constant_left_compare(ctx, z):
     return ctx.select(e, r, r * 2)
 
 
+def stress_list_args(ctx, x: list, y):
+    # a list argument of which only the items 1 and 2 are used (item 0 precedes the used ones)
+    return x[1] * y + x[2] * x[1]
+
+
+def stress_literal_infinities(ctx, x):
+    # literal (not named) infinities, each needed more than once
+    pinf = ctx.constant(float("inf"), x)
+    ninf = ctx.constant(-float("inf"), x)
+    r = ctx.select(x > 1.0, pinf, x) + ctx.select(x < -1.0, ninf, x)
+    return ctx.select(r == pinf, x, ctx.select(r == ninf, -x, r))
+
+
 def stress_shadow(ctx, x):
     # local names chosen to collide with names that library algorithms use internally
     one = ctx.constant(1, x)
@@ -171,6 +184,20 @@ STRESS = {
     "stress_constant_names": (stress_constant_names, 2, "float"),
     "stress_constant_left_compare": (stress_constant_left_compare, 1, "complex"),
 }
+# programs that only some targets / configurations accept on the unchanged tree: explicit requests
+STRESS_EXPLICIT = [
+    # list arguments: numpy only, and only with force_cast_arguments=False (what the package itself uses for them)
+    dict(target="numpy", func="stress_list_args", sig=["list:float32,float32,float32", ":float32"], params={"__force_cast__": False}),
+    dict(target="numpy", func="stress_list_args", sig=["list:float64,float64,float64", ":float64"], params={"__force_cast__": False}),
+    # literal infinities: the python target prints them as the bare name `inf` (a program-dimension defect, not claimed)
+    dict(target="numpy", func="stress_literal_infinities", sig=[":float32"]),
+    dict(target="numpy", func="stress_literal_infinities", sig=[":float64"]),
+    dict(target="cpp", func="stress_literal_infinities", sig=[":float64"]),
+    dict(target="stablehlo", func="stress_literal_infinities", sig=[":float"]),
+    dict(target="xla_client", func="stress_literal_infinities", sig=[":float"]),
+]
+STRESS_FUNCS_EXPLICIT = {"stress_list_args": stress_list_args, "stress_literal_infinities": stress_literal_infinities}
+
 STRESS_SIGS = {
     "python": {"float": [":float"], "complex": [":complex"]},
     "numpy": {"float": [":float32", ":float64"], "complex": [":complex64", ":complex128"]},
@@ -205,9 +232,25 @@ PARAM_SETS = [{"safe_min_limit": 1.0}, {"safe_max_limit_coefficient": 4.0}, {"us
               {"rewrite_keep_integer_literals": True}]
 
 
+def decode_sig(sig):
+    """Signature entries are strings; "list:float32,float32" stands for list[numpy.float32, numpy.float32]."""
+    import numpy
+
+    out = []
+    for x in sig:
+        if isinstance(x, str) and x.startswith("list:"):
+            items = tuple(getattr(numpy, t) if hasattr(numpy, t) else {"float": float, "complex": complex}[t] for t in x[5:].split(","))
+            out.append(list[items])
+        else:
+            out.append(x)
+    return out
+
+
 def get_func(fa, name):
     if name in STRESS:
         return STRESS[name][0]
+    if name in STRESS_FUNCS_EXPLICIT:
+        return STRESS_FUNCS_EXPLICIT[name]
     if name.startswith("gen:"):
         from .progen import get_generated
 
@@ -268,6 +311,9 @@ def build_universe(fa, extra_targets=()):
             _, nargs, kind = STRESS[name]
             for i, ty in enumerate(STRESS_SIGS[t][kind]):
                 out.append(dict(target=t, func=name, sig=[ty] * nargs, sigidx=i))
+    for r in STRESS_EXPLICIT:
+        if r["target"] in list(TARGETS) + list(extra_targets):
+            out.append(dict(r, sig=list(r["sig"]), sigidx=0, params=dict(r["params"]) if r.get("params") else None))
     return out
 
 
